@@ -14,7 +14,7 @@ MIN_EVALUATIONS = {"quick": 15000, "thorough": 15000}  # fewer oracle evaluation
 RULE = ("random controller projects (user tags of every kind, 0-3 programs with routines and tags, tasks, Map:/Cxn:, double-underscore and "
         "system-bit symbols, module I/O tags, aliases, UDTs nested <=3 with packed BOOLs on hidden hosts, arrays of structs, string types "
         "of capacity 1..4100, template ids inside and outside 0x100-0xEFF incl. both ends of either range, predefined types with a hidden CTL / Control status word "
-        "aliased by visible BOOL members and the bare-name template form) are uploaded through open() / get_tag_list(None | '*' | program) "
+        "aliased by visible BOOL members and the bare-name template form, every fourth project a member array and a string capacity of 32767 / 32768 / 40000 / 65535 elements) are uploaded through open() / get_tag_list(None | '*' | program) "
         "under target-chosen symbol pagination {1,2,3,random,all} and template fragmentation {1..8,random,all}, firmware {16..32}; the "
         "uploaded tags / data_types / info are compared field by field with the project model, get_tag_info(tag | tag[i].member.member[j]...) "
         "must return the same definitions, every uploaded type class must decode "
